@@ -13,6 +13,8 @@
   CONSUMED  every exit from a block passes into_left_after_take (with `?`); every streaming decoder (deflate, bzip2,
             xz, zstd) is first driven to its end by a 1-byte read whose error propagates and whose non-zero result
             is an error (a decoder that was never pulled leaves its compressed bytes in the block: F10)
+  CONSUMED  ... that probe reads through the buffered layer the objects were decoded from (what a BufReader already pulled
+            in is data left in the block too)
   RESET     a reused streaming encoder is reset before each block; bzip2/xz build a fresh encoder per block
   BLOCKCFG  data blocks are read with a fresh default DeserializerConfig over the file's schema; only the header's
             configuration is tightened (max_seq_size = 1000)
